@@ -23,7 +23,8 @@ Inductive wop :=
 | WRemoveSelf                            (* page.remove(view): strong search returns (view, slice(0, len)) *)
 | WReplaceSelf (ns : list A)
 | WBeforeSelf (ns : list A)
-| WAfterSelf (ns : list A).
+| WAfterSelf (ns : list A)
+| WSlice (lo hi : option Z) (ns : list A).  (* code.nodes[lo:hi] = ns: what a multi-node string target or a direct slice assignment does *)
 
 (* Wikicode.insert: the index is resolved once (as list.insert would), then
    for offset, node in enumerate(nodes): self.nodes.insert(index + offset, node) *)
@@ -57,6 +58,7 @@ Definition wc_ops (L : list A) (w : wop) : res (list (@lop A)) :=
   | WReplaceSelf ns => Ok (pop_ops 0 (length L) ++ ins_ops 0 0 ns)
   | WBeforeSelf ns => Ok (ins_ops len 0 ns)
   | WAfterSelf ns => Ok (ins_ops len len ns)
+  | WSlice lo hi ns => Ok [LSetSlice lo hi ns]
   end.
 
 Fixpoint multi_step (st : @sl A) (t : target) (ops : list (@lop A)) : res (@sl A) :=
@@ -108,7 +110,7 @@ Definition wc_run (st : @sl A) (edits : list (target * wop)) : @sl A :=
 Definition wop_new (w : wop) : list A :=
   match w with
   | WInsert _ ns | WAppend ns | WSet _ ns | WReplaceNode _ ns | WBeforeNode _ ns
-  | WAfterNode _ ns | WReplaceSelf ns | WBeforeSelf ns | WAfterSelf ns => ns
+  | WAfterNode _ ns | WReplaceSelf ns | WBeforeSelf ns | WAfterSelf ns | WSlice _ _ ns => ns
   | WRemoveNode _ | WRemoveSelf => []
   end.
 
